@@ -113,6 +113,8 @@ def replay_recip(chk, rs, c, variants):
     jm, im = c["ym"] // c["ay"], c["xm"] // c["ax"]
     rng = np.random.default_rng(seed() * 1000003 + hash(_cfg_key(c)) % 100000)
     for prof_kind, prec, src_kind in variants:
+        if c["an"] and prof_kind != "const":
+            prof_kind = "const"
         kw = rs.solver_args(c, prof_kind, prec)
         q = rs.source(c, src_kind, rng, j=rng.integers(c["ny"]), i=rng.integers(c["nx"]))
         try:
@@ -137,7 +139,357 @@ def replay_recip(chk, rs, c, variants):
                     return
 
 
-REPLAYS = {"C02": replay_recip}
+
+def _rng(c, salt=0):
+    import zlib
+
+    return np.random.default_rng(seed() * 1000003 + zlib.crc32(_cfg_key(c).encode()) + salt)
+
+
+def _viol(chk, rs, c, check, what, **extra):
+    sc = {"kind": check, "config": c}
+    sc.update(extra)
+    return chk.violation(what, sc, klass=dict(rs.classify(c), check=check))
+
+
+def _cmp(chk, rs, c, check, name, a, b, prec, what, exact=False, **extra):
+    """compare two field stacks; returns True when they agree"""
+    a = np.asarray(a)
+    b = np.asarray(b)
+    if a.shape != b.shape:
+        _viol(chk, rs, c, check, "%s: shapes %s vs %s (%s)" % (name, a.shape, b.shape, what), **extra)
+        return False
+    if exact:
+        if not np.array_equal(a, b):
+            d = float(np.max(np.abs(a.astype(float) - b.astype(float))))
+            _viol(chk, rs, c, check, "%s not bit-identical (max abs diff %.3e): %s" % (name, d, what), **extra)
+            return False
+        return True
+    ok, d = close(a, b, prec)
+    if not ok:
+        _viol(chk, rs, c, check, "%s differs by %.3e relative: %s" % (name, d, what), **extra)
+    return ok
+
+
+# ------------------------------------------------------------------ C03 conservation
+
+
+def resistance(z, Kz, node):
+    dz = np.diff(z)
+    return float(sum(dz[i] * (0.5 / Kz[i] + 0.5 / Kz[i + 1]) for i in range(node)))
+
+
+def replay_conserve(chk, rs, c, variants):
+    if c["err"] != "none":
+        return
+    rng = _rng(c)
+    g = c["geom"]
+    for prof_kind, prec, src_kind in variants:
+        if c["an"] and prof_kind != "const":
+            prof_kind = "const"
+        kw = rs.solver_args(c, prof_kind, prec)
+        z, prof = kw["z"], kw["profiles"]
+        q = rs.source(c, src_kind, rng, j=rng.integers(c["ny"]), i=rng.integers(c["nx"]))
+        bg = 0.37
+        extra = dict(profile=prof_kind, precision=prec, source=src_kind, q=q.tolist())
+        chk.case((_cfg_key(c), prof_kind, prec, src_kind))
+        _, conc, flx = rs.solve3(q, kw, srf_bg_conc=bg)
+        if c["halo"] == 0:
+            N = c["nx"] * c["ny"]
+            for k, node in enumerate(c["lv"]):
+                mflx = float(np.mean(flx[k]))
+                want = 1.0 / N if c["fp"] else float(np.mean(q))
+                scale = max(float(np.mean(np.abs(flx[k]))), abs(want), 1e-300)
+                if abs(mflx - want) > TOL[prec] * scale:
+                    _viol(chk, rs, c, "mean_flux", "mean flux %.12g at slot %d, expected %.12g (source mean / unit footprint sum)" % (mflx, k, want), **extra)
+                    return
+                R = (z[node] - z[0]) / prof[4][-1] if c["an"] else resistance(z, prof[4], node)
+                wantc = bg - want * R
+                mconc = float(np.mean(conc[k]))
+                scale = max(float(np.mean(np.abs(conc[k]))), abs(wantc), abs(want * R), 1e-300)
+                if abs(mconc - wantc) > TOL[prec] * scale:
+                    _viol(chk, rs, c, "mean_conc", "mean concentration %.12g at slot %d (node %d), expected bg - meanflux*R = %.12g" % (mconc, k, node, wantc), **extra)
+                    return
+        elif c["fp"] or (c["xm"] == 0 and c["ym"] == 0):
+            px, py = g["px"], g["py"]
+            qe = np.pad(q, ((py, py), (px, px)))
+            kwe = dict(kw)
+            kwe["domain"] = (g["nxe"] * c["ax"] * rs.U, g["nye"] * c["ay"] * rs.U)
+            kwe["halo"] = 0.0
+            if c["fp"]:
+                kwe["meas_pt"] = ((c["xm"] + px * c["ax"]) * rs.U, (c["ym"] + py * c["ay"]) * rs.U)
+            _, conce, flxe = rs.solve3(qe, kwe, srf_bg_conc=bg)
+            sl = (slice(None), slice(py, py + c["ny"]), slice(px, px + c["nx"]))
+            if not _cmp(chk, rs, c, "halo_is_padding", "flux", flx, flxe[sl], prec, "halo=%s vs explicit zero padding by (%d,%d) cells" % (kw["halo"], py, px), **extra):
+                return
+            if not _cmp(chk, rs, c, "halo_is_padding", "conc", conc, conce[sl], prec, "halo=%s vs explicit zero padding by (%d,%d) cells" % (kw["halo"], py, px), **extra):
+                return
+
+
+# -------------------------------------------------------------------- C04 linearity
+
+
+def replay_linear(chk, rs, c, variants):
+    if c["err"] != "none":
+        return
+    rng = _rng(c)
+    for prof_kind, prec, src_kind in variants:
+        if c["an"] and prof_kind != "const":
+            prof_kind = "const"
+        kw = rs.solver_args(c, prof_kind, prec)
+        q1 = rs.source(c, src_kind, rng, j=rng.integers(c["ny"]), i=rng.integers(c["nx"]))
+        q2 = rs.source(c, "dense", rng)
+        c1, c2 = 0.7, -1.9
+        a, b = float(rng.uniform(-3, 3)), float(rng.uniform(-3, 3))
+        extra = dict(profile=prof_kind, precision=prec, source=src_kind, q=q1.tolist())
+        chk.case((_cfg_key(c), prof_kind, prec, src_kind))
+        _, p1, f1 = rs.solve3(q1, kw, srf_bg_conc=c1)
+        if c["fp"]:
+            _, p2, f2 = rs.solve3(q2, kw, srf_bg_conc=c1)
+            if not (_cmp(chk, rs, c, "footprint_ignores_values", "flux", f1, f2, prec, "two different source arrays of the same shape", exact=True, **extra)
+                    and _cmp(chk, rs, c, "footprint_ignores_values", "conc", p1, p2, prec, "two different source arrays of the same shape", exact=True, **extra)):
+                return
+        else:
+            _, p2, f2 = rs.solve3(q2, kw, srf_bg_conc=c2)
+            _, p3, f3 = rs.solve3(a * q1 + b * q2, kw, srf_bg_conc=a * c1 + b * c2)
+            sc_f = max(np.max(np.abs(a * f1)), np.max(np.abs(b * f2)), 1e-300)
+            sc_p = max(np.max(np.abs(a * p1)), np.max(np.abs(b * p2)), 1e-300)
+            if np.max(np.abs(f3 - (a * f1 + b * f2))) > TOL[prec] * sc_f:
+                _viol(chk, rs, c, "superposition", "flux of a*q1+b*q2 differs from a*flux(q1)+b*flux(q2) by %.3e relative" % (np.max(np.abs(f3 - (a * f1 + b * f2))) / sc_f), a=a, b=b, **extra)
+                return
+            if np.max(np.abs(p3 - (a * p1 + b * p2))) > TOL[prec] * sc_p:
+                _viol(chk, rs, c, "superposition", "conc of (a*q1+b*q2, a*c1+b*c2) differs from the combination by %.3e relative" % (np.max(np.abs(p3 - (a * p1 + b * p2))) / sc_p), a=a, b=b, **extra)
+                return
+        # background only offsets the concentration, never the flux
+        _, p0, f0 = rs.solve3(q1, kw, srf_bg_conc=0.0)
+        if not _cmp(chk, rs, c, "background", "flux", f1, f0, prec, "flux with background %s vs background 0" % c1, exact=True, **extra):
+            return
+        sc = max(np.max(np.abs(p1)), np.max(np.abs(p0)), abs(c1))
+        if np.max(np.abs((p1 - p0) - c1)) > TOL[prec] * sc:
+            _viol(chk, rs, c, "background", "background %s does not shift the concentration uniformly (max dev %.3e)" % (c1, np.max(np.abs((p1 - p0) - c1))), **extra)
+            return
+
+
+# ------------------------------------------------------------------- C06 translation
+
+
+def replay_translate(chk, rs, c, variants):
+    if c["err"] != "none" or c["halo"] != 0:
+        return
+    rng = _rng(c)
+    dj, di = c["ym"] // c["ay"], c["xm"] // c["ax"]
+    ny, nx = c["ny"], c["nx"]
+    for prof_kind, prec, src_kind in variants:
+        if c["an"] and prof_kind != "const":
+            prof_kind = "const"
+        kw = rs.solver_args(c, prof_kind, prec)
+        q = rs.source(c, src_kind, rng, j=rng.integers(ny), i=rng.integers(nx))
+        extra = dict(profile=prof_kind, precision=prec, source=src_kind, q=q.tolist())
+        chk.case((_cfg_key(c), prof_kind, prec, src_kind))
+        if not c["fp"]:
+            _, p0, f0 = rs.solve3(q, kw, meas_pt=(0.0, 0.0))
+            _, p1, f1 = rs.solve3(np.roll(q, (dj, di), axis=(0, 1)), kw, meas_pt=(0.0, 0.0))
+            if not (_cmp(chk, rs, c, "translate_source", "flux", f1, np.roll(f0, (dj, di), axis=(1, 2)), prec, "source rolled by (%d,%d) cells" % (dj, di), **extra)
+                    and _cmp(chk, rs, c, "translate_source", "conc", p1, np.roll(p0, (dj, di), axis=(1, 2)), prec, "source rolled by (%d,%d) cells" % (dj, di), **extra)):
+                return
+            if (dj or di) and nx % 2 == 0 and ny % 2 == 0:
+                _, pr, fr = rs.solve3(q, kw)  # meas_pt = tower: re-centred output
+                want_f = np.roll(f0, (ny // 2 - dj, nx // 2 - di), axis=(1, 2))
+                want_p = np.roll(p0, (ny // 2 - dj, nx // 2 - di), axis=(1, 2))
+                if not (_cmp(chk, rs, c, "recentre", "flux", fr, want_f, prec, "meas_pt at cell (%d,%d) must move that cell to the domain centre" % (dj, di), **extra)
+                        and _cmp(chk, rs, c, "recentre", "conc", pr, want_p, prec, "meas_pt at cell (%d,%d) must move that cell to the domain centre" % (dj, di), **extra)):
+                    return
+        else:
+            _, pm, fm = rs.solve3(q, kw)
+            _, p0, f0 = rs.solve3(q, kw, meas_pt=(0.0, 0.0))
+            if not (_cmp(chk, rs, c, "translate_tower", "flux", fm, np.roll(f0, (dj, di), axis=(1, 2)), prec, "tower moved by (%d,%d) cells" % (dj, di), **extra)
+                    and _cmp(chk, rs, c, "translate_tower", "conc", pm, np.roll(p0, (dj, di), axis=(1, 2)), prec, "tower moved by (%d,%d) cells" % (dj, di), **extra)):
+                return
+            unit = np.zeros((ny, nx))
+            unit[dj, di] = 1.0
+            try:
+                _, pd, fd = rs.solve3(unit, kw, footprint=False, meas_pt=(0.0, 0.0))
+            except Exception:
+                continue
+            jj = (2 * dj - np.arange(ny)) % ny
+            ii = (2 * di - np.arange(nx)) % nx
+            if not (_cmp(chk, rs, c, "point_reflect", "flux", fm, fd[:, jj][:, :, ii], prec, "footprint vs point reflection of the unit-source response about the tower", **extra)
+                    and _cmp(chk, rs, c, "point_reflect", "conc", pm, pd[:, jj][:, :, ii], prec, "Green's function vs point reflection of the unit-source response about the tower", **extra)):
+                return
+
+
+# ----------------------------------------------------------- C07 symmetries / similarity
+
+
+def _filtered_diff(a, b, nyqx, nyqy):
+    """max |a-b| after removing the exempt (Nyquist) wavenumber rows/columns of the difference"""
+    d = np.fft.fft2(np.asarray(a, float) - np.asarray(b, float), axes=(-2, -1))
+    for kx in nyqx:
+        d[..., :, kx] = 0
+    for ky in nyqy:
+        d[..., ky, :] = 0
+    return float(np.max(np.abs(np.fft.ifft2(d, axes=(-2, -1)))))
+
+
+def replay_symmetry(chk, rs, c, variants):
+    if c["err"] != "none" or c["halo"] != 0 or c["xm"] or c["ym"]:
+        return
+    rng = _rng(c)
+    ny, nx = c["ny"], c["nx"]
+    for prof_kind, prec, src_kind in variants:
+        if c["an"] and prof_kind != "const":
+            prof_kind = "const"
+        kw = rs.solver_args(c, prof_kind, prec)
+        q = rs.source(c, src_kind, rng, j=rng.integers(ny), i=rng.integers(nx))
+        extra = dict(profile=prof_kind, precision=prec, source=src_kind, q=q.tolist())
+        chk.case((_cfg_key(c), prof_kind, prec, src_kind))
+        _, p0, f0 = rs.solve3(q, kw)
+        sc_f = max(float(np.max(np.abs(f0))), 1e-300)
+        sc_p = max(float(np.max(np.abs(p0))), 1e-300)
+        # mirror in x: q'[j, i] = q[j, -i mod nx], u -> -u
+        ix = (-np.arange(nx)) % nx
+        iy = (-np.arange(ny)) % ny
+        _, px_, fx_ = rs.solve3(q[:, ix], kw, profiles=rs.flip_profiles(kw["profiles"], su=-1.0))
+        df = _filtered_diff(fx_, f0[:, :, ix], c["nyqx"], c["nyqy"])
+        dp = _filtered_diff(px_, p0[:, :, ix], c["nyqx"], c["nyqy"])
+        if df > TOL[prec] * sc_f or dp > TOL[prec] * sc_p:
+            _viol(chk, rs, c, "mirror_x", "x-mirrored problem is not the mirrored solution (flux %.3e, conc %.3e relative, Nyquist components %s/%s removed)" % (df / sc_f, dp / sc_p, c["nyqx"], c["nyqy"]), **extra)
+            return
+        _, py_, fy_ = rs.solve3(q[iy, :], kw, profiles=rs.flip_profiles(kw["profiles"], sv=-1.0))
+        df = _filtered_diff(fy_, f0[:, iy, :], c["nyqx"], c["nyqy"])
+        dp = _filtered_diff(py_, p0[:, iy, :], c["nyqx"], c["nyqy"])
+        if df > TOL[prec] * sc_f or dp > TOL[prec] * sc_p:
+            _viol(chk, rs, c, "mirror_y", "y-mirrored problem is not the mirrored solution (flux %.3e, conc %.3e relative)" % (df / sc_f, dp / sc_p), **extra)
+            return
+        # axis swap
+        kwt = dict(kw)
+        kwt["profiles"] = rs.flip_profiles(kw["profiles"], swap=True)
+        kwt["domain"] = (kw["domain"][1], kw["domain"][0])
+        kwt["modes"] = (kw["modes"][1], kw["modes"][0])
+        _, pt, ft = rs.solve3(q.T.copy(), kwt)
+        if not (_cmp(chk, rs, c, "transpose", "flux", ft, np.transpose(f0, (0, 2, 1)), prec, "axes exchanged (source transposed, u<->v, Kx<->Ky, domain and modes swapped)", **extra)
+                and _cmp(chk, rs, c, "transpose", "conc", pt, np.transpose(p0, (0, 2, 1)), prec, "axes exchanged", **extra)):
+            return
+        # similarity: lengths and diffusivities times 2^k (every floating-point operation scales exactly)
+        for k in (int(rng.integers(-20, -1)), int(rng.integers(2, 21))):
+            s = 2.0 ** k
+            u, v, Kx, Ky, Kz = kw["profiles"]
+            kws = dict(kw)
+            kws["z"] = kw["z"] * s
+            kws["profiles"] = (u, v, Kx * s, Ky * s, Kz * s)
+            kws["domain"] = (kw["domain"][0] * s, kw["domain"][1] * s)
+            kws["meas_pt"] = (kw["meas_pt"][0] * s, kw["meas_pt"][1] * s)
+            if kw["halo"] is not None:
+                kws["halo"] = kw["halo"] * s
+            _, ps, fs = rs.solve3(q, kws)
+            if not (_cmp(chk, rs, c, "scale_length", "flux", fs, f0, prec, "all lengths and diffusivities times 2^%d" % k, **extra)
+                    and _cmp(chk, rs, c, "scale_length", "conc", ps, p0, prec, "all lengths and diffusivities times 2^%d" % k, **extra)):
+                return
+            kwr = dict(kw)
+            kwr["profiles"] = (u * s, v * s, Kx * s, Ky * s, Kz * s)
+            _, pr, fr = rs.solve3(q, kwr)
+            if not (_cmp(chk, rs, c, "scale_rate", "flux", fr, f0, prec, "winds and diffusivities times 2^%d" % k, **extra)
+                    and _cmp(chk, rs, c, "scale_rate", "conc", pr * s, p0, prec, "winds and diffusivities times 2^%d: concentration must be divided by it" % k, **extra)):
+                return
+
+
+# ------------------------------------------------------------------------ C10 levels
+
+
+def replay_levels(chk, rs, c, variants):
+    if c["err"] != "none":
+        return
+    rng = _rng(c)
+    lv = list(c["lv"])
+    for prof_kind, prec, src_kind in variants:
+        if c["an"] and prof_kind != "const":
+            prof_kind = "const"
+        kw = rs.solver_args(c, prof_kind, prec)
+        z = kw["z"]
+        q = rs.source(c, src_kind, rng, j=rng.integers(c["ny"]), i=rng.integers(c["nx"]))
+        bg = 0.21
+        extra = dict(profile=prof_kind, precision=prec, source=src_kind, q=q.tolist())
+        chk.case((_cfg_key(c), prof_kind, prec, src_kind))
+        grid, pm, fm = rs.solve3(q, kw, srf_bg_conc=bg)
+        Z = np.asarray(grid[2])
+        zl = np.array([np.unique(Z[k])[0] if Z.ndim == 3 else np.unique(Z)[0] for k in range(len(lv))]) if len(lv) > 1 else np.array([np.unique(Z)[0]])
+        if not np.array_equal(zl, z[lv]):
+            _viol(chk, rs, c, "labels", "returned heights %s are not z[levels] = %s" % (zl.tolist(), z[lv].tolist()), **extra)
+            return
+        _, pf, ff = rs.solve3(q, kw, srf_bg_conc=bg, levels=list(range(c["nz"])))
+        for k, node in enumerate(lv):
+            _, ps, fs = rs.solve3(q, kw, srf_bg_conc=bg, levels=[node])
+            what = "slot %d of levels=%s vs the single-level solve for node %d" % (k, lv, node)
+            if not (_cmp(chk, rs, c, "slot_is_single", "flux", fm[k], fs[0], prec, what, exact=True, **extra)
+                    and _cmp(chk, rs, c, "slot_is_single", "conc", pm[k], ps[0], prec, what, exact=True, **extra)):
+                return
+            what = "slot %d of levels=%s vs slice %d of the full-column solve" % (k, lv, node)
+            if not (_cmp(chk, rs, c, "full_column", "flux", fm[k], ff[node], prec, what, exact=True, **extra)
+                    and _cmp(chk, rs, c, "full_column", "conc", pm[k], pf[node], prec, what, exact=True, **extra)):
+                return
+        # argument forms: scalar, numpy array, tuple
+        if len(lv) == 1:
+            for form, val in (("scalar int", lv[0]), ("numpy scalar", np.int64(lv[0])), ("0-d array", np.array(lv[0]))):
+                g2, p2, f2 = rs.solve(q, kw, srf_bg_conc=bg, levels=val)
+                if not (_cmp(chk, rs, c, "level_forms", "flux", f2, fm[0], prec, "levels given as " + form, exact=True, **extra)
+                        and _cmp(chk, rs, c, "level_forms", "conc", p2, pm[0], prec, "levels given as " + form, exact=True, **extra)):
+                    return
+        else:
+            g2, p2, f2 = rs.solve3(q, kw, srf_bg_conc=bg, levels=np.array(lv))
+            if not (_cmp(chk, rs, c, "level_forms", "flux", f2, fm, prec, "levels given as numpy array", exact=True, **extra)
+                    and _cmp(chk, rs, c, "level_forms", "conc", p2, pm, prec, "levels given as numpy array", exact=True, **extra)):
+                return
+
+
+# ------------------------------------------------------------------------- C11 shape
+
+
+def replay_shape(chk, rs, c, variants):
+    if c["err"] != "none":
+        return
+    rng = _rng(c)
+    g = c["geom"]
+    ny, nx = c["ny"], c["nx"]
+    for prof_kind, prec, src_kind in variants[:2]:
+        if c["an"] and prof_kind != "const":
+            prof_kind = "const"
+        kw = rs.solver_args(c, prof_kind, prec)
+        q = rs.source(c, src_kind, rng, j=rng.integers(ny), i=rng.integers(nx))
+        extra = dict(profile=prof_kind, precision=prec, source=src_kind, q=q.tolist())
+        chk.case((_cfg_key(c), prof_kind, prec, src_kind))
+        grid, p, f = rs.solve3(q, kw)
+        X, Y = np.asarray(grid[0]), np.asarray(grid[1])
+        dx, dy = kw["domain"][0] / nx, kw["domain"][1] / ny
+        wantX = np.broadcast_to(np.arange(nx) * dx, (ny, nx))
+        wantY = np.broadcast_to((np.arange(ny) * dy)[:, None], (ny, nx))
+        if X.shape != (ny, nx) or not np.array_equal(X, wantX) or not np.array_equal(Y, wantY):
+            _viol(chk, rs, c, "coordinates", "returned X/Y are not i*dx, j*dy on the source grid", **extra)
+            return
+        if c["halo"] == 0 and (c["fp"] or (c["xm"] == 0 and c["ym"] == 0)):
+            nlx, nly = g["nlx"], g["nly"]
+            if not g["clamped"]:
+                _, pf, ff = rs.solve3(q, kw, modes=(nx + nx % 2 + 2, ny + ny % 2 + 2))
+                for name, a, b in (("flux", f, ff), ("conc", p, pf)):
+                    A = np.fft.fft2(a, axes=(-2, -1))
+                    B = np.fft.fft2(b, axes=(-2, -1))
+                    kx = np.abs(np.fft.fftfreq(nx, 1.0 / nx))[None, None, :]
+                    ky = np.abs(np.fft.fftfreq(ny, 1.0 / ny))[None, :, None]
+                    inside = (2 * kx < nlx) & (2 * ky < nly)
+                    beyond = (2 * kx > nlx) | (2 * ky > nly)
+                    sc = max(float(np.max(np.abs(B))), 1e-300)
+                    d_in = float(np.max(np.abs((A - B) * inside)))
+                    d_out = float(np.max(np.abs(A * beyond)))
+                    if d_in > TOL[prec] * sc or d_out > TOL[prec] * sc:
+                        _viol(chk, rs, c, "low_pass", "%s with modes (%d,%d): components inside the cut-off changed by %.3e, components beyond it have %.3e (relative)" % (name, nlx, nly, d_in / sc, d_out / sc), **extra)
+                        return
+            elif c["mx"] > g["nxe"] and c["my"] > g["nye"] and g["nxe"] % 2 == 0 and g["nye"] % 2 == 0:
+                _, pe, fe = rs.solve3(q, kw, modes=(g["nxe"], g["nye"]))
+                if not (_cmp(chk, rs, c, "clamp_eq", "flux", f, fe, prec, "modes %s vs exactly the padded size (%d,%d)" % (kw["modes"], g["nxe"], g["nye"]), exact=True, **extra)
+                        and _cmp(chk, rs, c, "clamp_eq", "conc", p, pe, prec, "modes above the padded size vs exactly the padded size", exact=True, **extra)):
+                    return
+
+
+REPLAYS = {"C02": replay_recip, "C03": replay_conserve, "C04": replay_linear, "C06": replay_translate, "C07": replay_symmetry, "C10": replay_levels, "C11": replay_shape}
 
 VARIANTS_QUICK = [("most_u", "double", "dense"), ("mostm", "double", "sparse"), ("aniso", "single", "smooth")]
 VARIANTS_THOROUGH = VARIANTS_QUICK + [
@@ -146,6 +498,44 @@ VARIANTS_THOROUGH = VARIANTS_QUICK + [
     ("aniso", "double", "sparse"),
     ("mostm", "single", "dense"),
 ]
+
+
+def validate_traces(chk, prop, rs, tracefile, limit):
+    """code -> spec: the stage events recorded during the replays must be behaviours of the specification"""
+    from . import trace_solver
+
+    os.environ.pop("BLDFM_VERIF_TRACE", None)
+    res = trace_solver.validate(tracefile, prop, limit=limit)
+    chk.traces += res["accepted"]
+    if "tlc" in res:
+        chk.states += res["tlc"]["distinct_states"]
+        chk.transitions += res["tlc"]["states_generated"]
+    chk.extra["trace_validation"] = {k: res[k] for k in ("calls", "representable", "unrepresentable", "distinct", "validated", "accepted")}
+    chk.extra["trace_validation"]["rejected"] = len(res["rejected"])
+    for rej in res["rejected"]:
+        nxt = rej["next_event"]
+        cfgm = dict(rej["call"])
+        cfgm["halo"] = -1 if cfgm["halo"] == 99999 else cfgm["halo"]
+        if nxt is not None and nxt["e"] == "return":
+            # the return event contradicts the specification: shape or labels - both are what C11 / C10 talk about
+            want = [len(cfgm["lv"]), cfgm["ny"], cfgm["nx"]]
+            if nxt["flx"] != want or nxt["conc"] != want:
+                if prop in ("C11", "C02", "C03"):
+                    chk.violation("recorded call returned shape %s for a source of shape %s" % (nxt["flx"], want[1:]),
+                                  {"kind": "trace", "call": rej}, klass=dict(rs.classify(cfgm), check="trace_shape"))
+                    continue
+            elif nxt["zidx"] != cfgm["lv"]:
+                if prop == "C10":
+                    chk.violation("recorded call labelled its slices with nodes %s for levels=%s" % (nxt["zidx"], cfgm["lv"]),
+                                  {"kind": "trace", "call": rej}, klass=dict(rs.classify(cfgm), check="trace_labels"))
+                    continue
+        if nxt is not None and nxt["e"] == "mean_store" and prop == "C10":
+            chk.violation("mean-mode loop stored node %s in slot %s for levels=%s" % (nxt["node"], nxt["slot"], cfgm["lv"]),
+                          {"kind": "trace", "call": rej}, klass=dict(rs.classify(cfgm), check="trace_mean_store"))
+            continue
+        chk.drift_note("trace not explained by the specification after %d of %d events; next event %s; call %s" % (rej["matched_events"], rej["of"], json.dumps(nxt), json.dumps(rej["call"])))
+    if res["rejected"]:
+        chk.extra["trace_validation"]["first_rejected"] = res["rejected"][0]
 
 
 def replay_scenario(prop, path):
@@ -169,6 +559,8 @@ def main(prop):
     chk = Check(prop)
     fam = FAMILY[prop]
     t = tier()
+    tracefile = os.path.join(common.scratch("trace_raw_" + prop), "events.ndjson")
+    os.environ["BLDFM_VERIF_TRACE"] = tracefile
     cfgname = "MC_%s_%s" % (fam, t)
     if not os.path.exists(os.path.join(common.SPEC, cfgname + ".cfg")):
         cfgname = "MC_%s_quick" % fam
@@ -195,7 +587,15 @@ def main(prop):
         if c["err"] != "none":
             n_err += 1
         if ok:
-            replay(chk, rs, c, variants)
+            try:
+                replay(chk, rs, c, variants)
+            except Exception as e:
+                chk.violation(
+                    "the model predicts a result for every call of the identity replay, the code raised %s: %s" % (type(e).__name__, str(e)[:120]),
+                    {"kind": "replay_exception", "config": c},
+                    klass=dict(rs.classify(c), check="replay_exception"),
+                )
+    validate_traces(chk, prop, rs, tracefile, limit=4000 if t == "quick" else 40000)
     chk.extra["configurations_from_tlc"] = len(configs)
     chk.extra["configurations_predicted_error"] = n_err
     for c in configs[:: max(1, len(configs) // 4)][:4]:
